@@ -80,10 +80,11 @@ def family(prop, tier):
                       ["clone", "read", "drop", "clone", "read", "drop", "drop"]]
             for a, b in itertools.combinations_with_replacement(range(len(progs)), 2):
                 add(f"2t:{a}{b}", [progs[a], progs[b]])
-            for c in itertools.combinations_with_replacement(range(6), 3):
+            for c in itertools.combinations_with_replacement(range(7), 3):
                 add("3t:" + "".join(map(str, c)), [progs[i] for i in c])
-            for c in [(1, 1, 1, 1), (0, 1, 1, 2), (0, 0, 1, 1), (1, 1, 1, 2), (0, 1, 2, 3), (1, 1, 2, 2), (0, 0, 0, 2)]:
-                add("4t:" + "".join(map(str, c)), [progs[i] for i in c])
+            for c in itertools.combinations_with_replacement(range(4), 4):
+                if sum(len(progs[i]) for i in c) <= 13:   # larger ones (40+ events) do not finish in 10 min
+                    add("4t:" + "".join(map(str, c)), [progs[i] for i in c])
             add("spawn-chain", [["clone", "give", "read", "drop"], ["clone", "give", "read", "drop"], RD], {1: (0, 0), 2: (1, 0)})
             add("spawn3", [["clone", "give", "clone", "give", "clone", "give", "drop"], RD, RD, ["clone", "read", "drop", "drop"]],
                 {1: (0, 0), 2: (0, 2), 3: (0, 4)})
